@@ -63,12 +63,32 @@ def gen(seed, tier):
             segs.append(seg(0, [mk(first)]))
             segs.append(seg(0, [mk(r.choice([4, 5, 11, 17, 18, 20]))]))
         cases.append(H("C17-h%d" % i, o, segs))
+    # the code as SHOWN in the table row (kind D renders rows): every block is visited, the blocks with a five-letter code
+    # (ICAO1 / ICAO2) and unallocated addresses in every case
+    long_blocks = [b for b in bl if len(b[2]) > 2]
+    for i in range(6 if tier == "quick" else 40):
+        picks = r.sample(bl, 14) + long_blocks
+        addrs = []
+        for f, n, c in picks:
+            addrs.append(r.choice([f, f + n - 1, f + r.randrange(n)]) or 1)
+        addrs += [a for a in (r.getrandbits(24) for _ in range(4)) if a]
+        lines = [r.choice([g.f_df11(a), g.f_short(4, a), g.f_df17(a, g.me_ident())]) for a in addrs]
+        cases.append(D("C17-d%d" % i, {"i": r.choice(["x", "e", "aAews"])}, [seg(0, lines)]))
     return cases
 
 
 def oracle(parts, outcome, obs):
     if outcome.replace("+slow", "") != "ok":
         return "outcome %s" % outcome
+    if parts[1] == "D":
+        import pyspec
+        for k, o in enumerate(obs.split("#")):
+            for a, row in pyspec.rows_of(o).items():
+                line = row.get("disp", "").replace("_", " ")
+                want = spec(a)
+                if not line[7:].startswith(want.ljust(2) + " "):
+                    return "the table row of %06X shows country %r, Annex 10 block list says %s" % (a, line[7:13], want)
+        return None
     if parts[1] == "H":
         import pyspec
         for k, o in enumerate(obs.split("#")):
